@@ -123,13 +123,22 @@ def check_C24(ctx, replay=None):
         "evaluations": hr.stats["evaluations"] + hd.stats["evaluations"],
         "distinct_nontrivial": hr.stats["distinct_classes"],
         "rule": "TLC: DistinctWalk(n) for every n in 1..65535 on the closed form, DistributeOK for all (h,n,rf) with n<=40, "
-                "closed form tabulated; harness: real distribute_partition == table, then for every covered n: all start "
-                "points p<n x rf in {0..13,255} (full walk) and all 2^16 hashes x rf in {1,3}; thorough covers every n "
-                "in 0..65535 (release build) and the quick domain again in the dev profile (overflow checks on). "
+                "closed form tabulated; harness: the real distribute_partition is compared with the table and the closed form "
+                "(a walk that differs but satisfies the property is counted as closed_form_divergences, not reported), and the "
+                "property as stated (length min(rf,n,12), pairwise distinct, below n, first = h mod n, prefix of the result for a "
+                "larger rf, same result when called again, no panic) is evaluated on the real function for every covered n: all "
+                "start points p<n x rf in {0..13,255} and all 2^16 hashes x rf in {1,3}; thorough covers every n in 0..65535 "
+                "(release build) and the quick domain again in the dev profile (overflow checks on). "
                 "distinct_nontrivial = number of jump classes covered.",
         "samples": hr.stats.get("samples", []),
         "states": res.distinct, "transitions": res.generated, "traces_validated_against_impl": n,
         "exhaustive": bool(hr.stats.get("exhaustive")),
         "partition_counts_covered": hr.stats.get("partition_counts_covered"),
+        "closed_form_divergences": hr.stats.get("closed_form_divergences", 0) + hd.stats.get("closed_form_divergences", 0),
     }
-    return finish(ctx, "model_checking", cov, ["TLC integers suffice: all values < 2^17"])
+    notes = ["TLC integers suffice: all values < 2^17"]
+    if cov["closed_form_divergences"]:
+        notes.append("the real function no longer follows the specification's closed form (%d inputs): TLC's result about the closed "
+                     "form does not transfer; the verdict rests on the direct evaluation of the property over the covered inputs"
+                     % cov["closed_form_divergences"])
+    return finish(ctx, "model_checking", cov, notes)
